@@ -335,9 +335,11 @@ def gen_tx(r, next_snap, allow_add=True, allow_code=True, n_ops=None, wild=False
         elif c < 0.52:
             ops.append(("setnonce", a, r.choice(NONCES)))
         elif c < 0.58 and allow_code:
-            ops.append(("setcode", a, r.choice(CODES) if not wild else r.choice(CODES + [None])))
+            ops.append(("setcode", a, r.choice(CODES + [None])))
         elif c < 0.595:
             ops.append(("suicide", a))
+        elif c < 0.62:
+            ops.append(("getcommitted", a, r.choice(KEYS)))
         elif c < 0.70:
             ops.append(("get", a, r.choice(KEYS)))
         elif c < 0.80:
